@@ -3,7 +3,7 @@
    property itself on the OBSERVATION ([check]). *)
 From Coq Require Import List String Ascii ZArith NArith Bool.
 Import ListNotations.
-From Onet Require Export Base.Corr Api.Rest Api.RestConc Api.Par.
+From Onet Require Export Base.Corr Api.Rest Api.RestConc Api.Par Api.Spec.
 
 (* Which variant of the model describes /repo as it is now.  The integrator flips a
    definition to [true] when the corresponding fix commit lands. *)
@@ -61,12 +61,11 @@ Definition agree_rounds (clients : list ckind) (rounds : list (list creq)) (obs 
 
 (* ---- the property on the observation ---------------------------------------- *)
 
-(* Does the observed reply satisfy what the property demands of this request?
-   [s] is the reply computed from this request's content alone.  A websocket
-   connection closed without a reason still reports an error to that client. *)
-Definition sat_reply (ws : bool) (s o : reply) : bool :=
-  reply_eqb s o ||
-  (ws && is_err s && match o with RErr EAbnormal _ => true | _ => false end).
+(* The verdict "this reply violates the property" comes from the specification alone:
+   [Api.Spec.satisfies (spec_of ...)] -- the handler's reply for exactly this request's
+   content, or AN error (whatever its class) where the request is malformed, mis-addressed
+   or its handler fails.  The model is consulted only afterwards, to NAME the way in which
+   a violating reply is wrong (the clause number, by which known findings are told apart). *)
 
 Definition not_answered (o : reply) : bool :=
   match o with
@@ -74,8 +73,8 @@ Definition not_answered (o : reply) : bool :=
   | _ => false
   end.
 
-Definition handler_failure (s : reply) : bool :=
-  match s with RErr EHandler _ | RErr EPanic _ => true | _ => false end.
+Definition handler_failure (s : sreply) : bool :=
+  match s with SError (Some _) => true | _ => false end.
 
 (* history needed to name the way a reply is wrong *)
 Record hist := { h_writes : list (nat * list write);   (* registration, writes of an earlier request *)
@@ -85,7 +84,8 @@ Definition hist_writes (h : hist) (ri : nat) : list write :=
   flat_map (fun e => if Nat.eqb (fst e) ri then snd e else []) (h_writes h).
 
 (* clause numbers:
-   1 the reply is not the one computed for this request (wrong content, wrong class, someone else's reply)
+   1 the reply is not the one computed for this request (wrong content, a success where the
+     request had to be refused or the converse, somebody else's reply or somebody else's failure)
    2 the reply was computed from this request's content mixed with fields of OTHER requests
      to the same REST resource (carry-over / cross-talk through a shared decoded argument)
    3 a handler error or panic was answered as a success
@@ -95,7 +95,7 @@ Definition hist_writes (h : hist) (ri : nat) : list write :=
    6 as 2, but a string / byte field of the reply is TORN: pointer of one concurrent
      request's value, length of another's (data race on the shared decoded argument) *)
 Definition classify (w : world) (clients : list ckind) (h : hist) (rd : list creq) (i : nat)
-           (cr : creq) (s o : reply) : nat :=
+           (cr : creq) (s : sreply) (o : reply) : nat :=
   match c_req cr with
   | QRest q =>
       match routed_plan w cr with
@@ -125,14 +125,14 @@ Definition classify (w : world) (clients : list ckind) (h : hist) (rd : list cre
       end
   end.
 
-Definition is_ws (cr : creq) : bool := match c_req cr with QWs _ _ => true | QRest _ => false end.
+Definition is_ws (cr : creq) : bool := req_is_ws cr.
 
 Fixpoint check_round (w : world) (clients : list ckind) (h : hist) (rd rest : list creq)
          (obs : list reply) (i : nat) : list nat :=
   match rest, obs with
   | cr :: r, o :: os =>
-      let s := fixed_reply w clients cr in
-      (if sat_reply (is_ws cr) s o then [] else [classify w clients h rd i cr s o]) ++
+      let s := spec_of w clients cr in
+      (if satisfies (req_is_ws cr) s o then [] else [classify w clients h rd i cr s o]) ++
       check_round w clients h rd r os (S i)
   | [], [] => []
   | _, _ => [1]          (* a request without observation, or the converse *)
@@ -182,9 +182,13 @@ Definition agree_conv (c : sconv) (o : sobs) : bool :=
 (* what the property demands of ONE message of a conversation: the stream computed from
    that message alone; a failing message gets no reply and the stream is closed *)
 Definition spec_msg (m : smsg) : list reply * bool (* the stream goes on *) :=
-  match conversation true [m] with
-  | ([rs], SOpen) => (rs, true)
-  | _ => ([], false)
+  match m with
+  | SGarbage => ([], false)
+  | SMsg p =>
+      match handler HLenient (apply_writes zero_msg (pmsg_writes p)) with
+      | HOk r => (stream_replies r, true)     (* the stream the handler produces for this message *)
+      | _ => ([], false)                       (* error or panic: no reply, the stream is closed *)
+      end
   end.
 
 (* clause 8: a streaming request was not answered with the stream computed for it
@@ -254,6 +258,14 @@ Definition send_reply (bs : list nbehav) (call : nat * pmsg) : reply :=
   | PErr c t => RErr c t
   end.
 
+(* what the property demands of a single SendProtobuf to node i *)
+Definition send_spec (bs : list nbehav) (call : nat * pmsg) : sreply :=
+  match node_out bs true (decode_q (snd call)) (fst call) with
+  | POk r => SOk 6 r
+  | PBadReply r => SOk 66 r
+  | PErr _ t => SError (Some t)
+  end.
+
 Definition predicted (bs : list nbehav) (o : popts) (use_decoder want_ret : bool) (q : pmsg)
            (perm prio : list nat) (hold : option nat) : pobs :=
   let n := List.length bs in
@@ -290,7 +302,7 @@ Definition agree_pstep (bs : list nbehav) (st : pstep) (ob : pstep_obs) : bool :
 Definition check_pstep (bs : list nbehav) (st : pstep) (ob : pstep_obs) : list nat :=
   match st, ob with
   | StSend calls, OSend rs =>
-      List.concat (zip_with (fun c o => if sat_reply true (send_reply bs c) o then []
+      List.concat (zip_with (fun c o => if satisfies true (send_spec bs c) o then []
                                    else if not_answered o then [4] else [1]) [1] calls rs)
   | StCall o use_decoder want_ret q prio hold, OCall res first final died =>
       (if died then [4] else []) ++
